@@ -3,7 +3,7 @@
 Derivatives (exact): every binary string of length 0..10, both derivatives, compared digit by digit with the
 model's loops; plus random longer strings.
 Values (bien / tbien / ktbien): every binary string of length 2..10 (2044 strings x 3 functions) and random /
-structured strings of length 11..64 (bien) and 11..300 (tbien, ktbien).  The returned double is transported exactly
+structured strings of length 11..300 (bien: a 11..64 bucket and a 65..300 bucket with fixed lengths\n65, 66, 100, 128, 129, 200, 300; tbien, ktbien: 11..300).  The returned double is transported exactly
 (float.hex() -> integer mantissa and exponent) and must lie within 2^-30 of the verified interval enclosure of the
 model's real value.  In run_impl the metamorphic partners (complement, reverse, rotations) are also evaluated on the
 implementation; oracle() checks them with tolerance 1e-12 and checks 0.0 <= v <= 1.0 on every double (a test).
@@ -19,7 +19,7 @@ EXHAUSTIVE = {'quick': True, 'thorough': True}
 NOTES = ['both tiers: binary_derivative and cyclic_binary_derivative on ALL 2047 binary strings of length 0..10 (exact); '
          'bien, tbien, ktbien on ALL 2044 binary strings of length 2..10 (through the enclosure)',
          'the thorough tier is also complete for lengths 11 and 12 (6144 more strings, all five functions)',
-         'beyond that sampled: lengths 11..64 for bien, 11..300 for tbien/ktbien and the derivatives (uniform, sparse, '
+         'beyond that sampled: lengths 11..300 for bien (incl. 65, 66, 100, 128, 129, 200, 300: weights 2^k beyond a machine word), tbien, ktbien and the derivatives (uniform, sparse, '
          'periodic, constant, alternating strings); the thorough tier takes 16 times more of them',
          'the [0,1] bound and the invariances are theorems about the real-valued definitions; every double is shown to be '
          'within 2^-30 of that real; additionally 0.0 <= v <= 1.0 and the partner equalities (1e-12) are TESTED on every '
@@ -106,6 +106,13 @@ def generate(rng, tier):
     for _ in range(40 * scale):
         n = rng.choice([11, 16, 31, 32, 33, 48, 63, 64, rng.randint(11, 64), rng.randint(11, 64)])
         heavy.append({'kind': 'bien/random_len11..64', 'op': 'bien', 's': rand_string(rng, n)})
+    # bien beyond 64 digits: the weights 2^k no longer fit a machine word (the code works in floats up to n ~ 1024)
+    for rep in range(2 * scale):
+        for n in (65, 66, 100, 128, 129, 200, 300):
+            s = rand_string(rng, n) if rep % 2 else ''.join(rng.choice('01') for _ in range(n))
+            heavy.append({'kind': 'bien/random_len65..300', 'op': 'bien', 's': s})
+    for _ in range(6 * scale):
+        heavy.append({'kind': 'bien/random_len65..300', 'op': 'bien', 's': rand_string(rng, rng.randint(65, 300))})
     for f in ('tbien', 'ktbien'):
         for _ in range(24 * scale):
             n = rng.choice([11, 33, 64, 65, 100, 128, 255, 256, 257, 299, 300,
@@ -209,10 +216,20 @@ def oracle(c, obs):
 
 def shrink(c):
     s = c['s']
-    lo = 0 if c['op'] == 'deriv' else 2
-    if len(s) > lo:
-        yield dict(c, s=s[1:])
-        yield dict(c, s=s[:-1])
-    if len(s) >= 2 * max(lo, 1) + 2:
-        yield dict(c, s=s[:len(s) // 2])
-        yield dict(c, s=s[len(s) // 2:])
+    if c['op'] == 'deriv':
+        if len(s) > 0:
+            yield dict(c, s=s[1:])
+            yield dict(c, s=s[:-1])
+        if len(s) >= 4:
+            yield dict(c, s=s[:len(s) // 2])
+            yield dict(c, s=s[len(s) // 2:])
+        return
+    # value cases: every candidate costs one coqc with the 6 s logarithm table, so at most 3 + 2 candidates in all
+    depth = c.get('_sh', 0)
+    if depth >= 2:
+        return
+    if depth == 0 and s != '01':
+        yield dict(c, s='01', _sh=2)
+    if len(s) >= 4:
+        yield dict(c, s=s[:len(s) // 2], _sh=depth + 1)
+        yield dict(c, s=s[len(s) // 2:], _sh=depth + 1)
